@@ -235,11 +235,13 @@ PlainLen(rs) == IF rs = <<>> THEN 0
                 ELSE LET r == Head(rs)
                          nl(n) == Len(EncName(Labels(n)))
                      IN nl(r.n) + 10 + (IF r.t \in NameTypes THEN nl(r.rdn) ELSE Len(r.rd)) + PlainLen(Tail(rs))
+(* length of the response when no name is compressed *)
+PlainTotal(qs, exp) == 12 + Len(EncQs([i \in 1..Len(qs) |-> Question(Labels(qs[i].n), qs[i].t, qs[i].c)]))
+                       + PlainLen(exp[1]) + PlainLen(exp[2]) + PlainLen(exp[3])
 EncodeOK(b, qs, exp, limit) ==
   LET d == Decode(b)
       lim == IF limit = 0 THEN 65535 ELSE limit
-      plain == 12 + Len(EncQs([i \in 1..Len(qs) |-> Question(Labels(qs[i].n), qs[i].t, qs[i].c)]))
-               + PlainLen(exp[1]) + PlainLen(exp[2]) + PlainLen(exp[3])
+      plain == PlainTotal(qs, exp)
   IN /\ d.hdr /\ d.qr = 1
      /\ Len(b) <= lim
      /\ d.ok                                          \* the counts never describe records that are not present
@@ -249,6 +251,23 @@ EncodeOK(b, qs, exp, limit) ==
         THEN d.exact /\ Views(d.an) = exp[1] /\ Views(d.ns) = exp[2] /\ Views(d.ar) = exp[3]
         ELSE /\ plain > lim                           \* truncation only when the message does not fit
              /\ IsPrefix(Views(d.an), exp[1]) /\ IsPrefix(Views(d.ns), exp[2]) /\ IsPrefix(Views(d.ar), exp[3])
+
+(* Size boundary.  When no two names of the message share a suffix nothing can be compressed, so every encoder produces
+   exactly PlainTotal bytes and the truncation decision is fully determined: TC (and a cut) iff PlainTotal > limit;
+   a response of exactly `limit` bytes is sent whole. *)
+NameSuffixes(nm) == {SubSeq(nm, i, Len(nm)) : i \in 1..Len(nm)}
+AllNames(qs, exp) == [i \in 1..Len(qs) |-> qs[i].n] \o Flat([s \in 1..3 |-> Flat([i \in 1..Len(exp[s]) |->
+                        IF exp[s][i].t \in NameTypes THEN <<exp[s][i].n, exp[s][i].rdn>> ELSE <<exp[s][i].n>>])])
+Incompressible(qs, exp) == LET ns == AllNames(qs, exp) IN
+                           \A i, j \in 1..Len(ns) : i < j => NameSuffixes(ns[i]) \cap NameSuffixes(ns[j]) = {}
+BoundaryOK(b, qs, exp, limit) ==
+  LET d == Decode(b)
+      lim == IF limit = 0 THEN 65535 ELSE limit
+      total == PlainTotal(qs, exp)
+  IN /\ Incompressible(qs, exp)
+     /\ d.hdr
+     /\ (d.tc = 1) <=> (total > lim)
+     /\ (d.tc = 0) => Len(b) = total
 
 (* why EncodeOK fails (diagnostics for the report) *)
 EncodeWhy(b, qs, exp, limit) ==
